@@ -137,6 +137,9 @@ func init() {
 			BFS(c, &HistFamily{Nmax: nrev, Insts: revInsts(true), Or: HistOracle{Roots: true, Prop: "C01"}}, 0)
 		}
 		tallFamily(c, "C01")
+		if !c.Expired() {
+			manyRootsFamily(c, "C01")
+		}
 	}
 
 	Checks["C02"] = func(c *Ctx) {
@@ -203,6 +206,9 @@ func init() {
 		if !c.Expired() {
 			tallFamily(c, "C10")
 		}
+		if !c.Expired() {
+			manyRootsFamily(c, "C10")
+		}
 	}
 
 	Checks["C06"] = func(c *Ctx) {
@@ -260,6 +266,9 @@ func init() {
 			}
 			c.Cov.Bound["three_undos.Nmax"] = d3.Nmax
 			BFS(c, d3, 0)
+		}
+		if !c.Expired() {
+			manyRootsFamily(c, "C06")
 		}
 		if !c.Expired() {
 			tallFamily(c, "C06")
